@@ -7,6 +7,8 @@ A case is (cfg, script): cfg = dict(cap, handles, mt, rmin, rmax); script = list
   ('F', tx, k) whole reply frame, k in 'g' genuine 'e' exception 'b' wrong function
   ('P', tx, k) ('Q',) frame split in two   ('G',) rejected header  ('Z',) EOF  ('R',) read error
   ('W',) next write fails  ('V', ns) next write takes ns   ('T', ns) advance virtual time
+  ('WP',) the transport's transmit path is full: it takes nothing until released (parks add up)  ('WR',) one park is over
+  ('WA', k) the transport takes at most k bytes of what is offered next (invisible to the task)
 
 The harness (`client`) runs the script on the real ClientLoop; the Coq model is evaluated on the
 same script under the eager schedule (Model/ClientEager.v); results are compared textually after
@@ -68,7 +70,9 @@ def step_coq(s):
         return f'EvFrame {s[1]} {REPLY[s[2]]}'
     if t == 'P':
         return f'EvHead {s[1]} {REPLY[s[2]]}'
-    return {'Q': 'EvTail', 'G': 'EvGarbage', 'Z': 'EvEof', 'R': 'EvIoErr', 'W': 'EvFailWrite'}.get(t) or \
+    if t == 'WA':
+        return f'EvWritePartial {s[1]}'
+    return {'Q': 'EvTail', 'G': 'EvGarbage', 'Z': 'EvEof', 'R': 'EvIoErr', 'W': 'EvFailWrite', 'WP': 'EvWritePark', 'WR': 'EvWriteRelease'}.get(t) or \
         (f'EvWriteDelay {s[1]}' if t == 'V' else f'EvTick {s[1]}' if t == 'T' else _bad(s))
 
 
@@ -196,6 +200,8 @@ def spec_failures(case, line):
     if any(a == b for a, b in zip(txs, txs[1:])):
         bad.append('C11.consecutive-requests-share-a-tx-id')
     fmt_failed = {c[0] for c in p['comp'] if c[1] in ('BadRequest', 'Internal')}
+    # ... or taken and never fully written: the transmission was not done when its bound passed (Io without a wire entry)
+    fmt_failed |= {c[0] for c in p['comp'] if c[1] == 'Io' and c[0] not in set(wids)}
     taken = [i for i in submitted if i in set(wids) or i in fmt_failed]
     if len(set(submitted)) == len(submitted) and not rtu:
         for k, i in enumerate(taken):
@@ -340,6 +346,33 @@ def spec_failures(case, line):
             elif nxt[:2] == 'lC':
                 if '@' in nxt and int(nxt.split('@')[1]) != first:
                     bad.append('C13.reconnect-attempt-not-at-wait-start-plus-the-announced-delay')
+    # C10 "none left pending forever" / C13 "shutdown ends the task", on a finite log: the task works its queue in order and
+    # every request it takes is over after at most two of its timeouts - the transmission is bounded by the timeout, then
+    # the reply is - each elapsing at the first instant of the script at or after its timer instant.  `bound` is the
+    # latest instant by which everything submitted so far is over, whatever the transport and the peer do (None: the
+    # script does not go on long enough to tell).
+    def next_tick(x):
+        return min([t for t in all_ticks if t >= x], default=None)
+
+    tnow = 0
+    live = cfg['handles']
+    bound = 0
+    pend = []
+    for st in script:
+        if st[0] == 'T':
+            tnow += st[1]
+        elif st[0] == 'H':
+            live = max(0, live - 1)
+        elif st[0] == 'S' and live > 0 and bound is not None:
+            bound = max(bound, tnow)
+            for _ in range(2):
+                bound = next_tick(bound + st[3] + RES) if bound is not None else None
+            if bound is not None and not p['done'] and st[1] not in ids and len(set(submitted)) == len(submitted):
+                pend.append('C10.request-still-pending-although-every-deadline-has-passed')
+        elif st[0] == 'X' and live > 0 and bound is not None:
+            if not p['done'] and next_tick(max(bound, tnow) + 1) is not None:
+                pend.append('C13.shutdown-not-processed-although-every-earlier-request-is-over')
+    bad += pend
     # C10: Shutdown is only reported when the task is gone, or when the submitting try_send itself was rejected
     if not p['done']:
         for i, c, t in p['comp']:
@@ -427,6 +460,8 @@ class Sim:
         self.partial = None
         self.wfail = False
         self.wdelay = 0
+        self.wpark = 0        # parks of the transmit path not yet released
+        self.wdl = 0          # while writing: write start + request timeout
         self.req = None       # (id, timeout, tx, deadline / until)
         self.until = 0
         self.nl = 1           # listener notifications so far (the initial Disabled)
@@ -487,10 +522,11 @@ class Sim:
                 elif self.wfail:
                     self.wfail, self.wdelay = False, 0
                     self._finish('Io')
-                elif self.wdelay:
+                elif self.wdelay or self.wpark:
                     self.ph = 'Writing'
                     self.req = (c[1], c[3], tx)
-                    self.until = self.now + self.wdelay
+                    self.until = self.now + self.wdelay if self.wdelay else 0
+                    self.wdl = self.now + c[3]
                     self.wdelay = 0
                 else:
                     self.ph = 'InFlight'
@@ -540,11 +576,13 @@ class Sim:
                 if self.open_ok:
                     self.rcur = self.cfg['rmin']
                 self._connect_result(self.open_ok)
-            elif self.ph in ('Writing', 'InFlight', 'Waiting') and fires_at(self.until) <= self.now:
-                if self.ph == 'Writing':
-                    self.ph = 'InFlight'
-                    self.until = self.now + self.req[1]
-                elif self.ph == 'InFlight':
+            elif self.ph == 'Writing' and self.wpark == 0 and fires_at(self.until) <= self.now:
+                self.ph = 'InFlight'
+                self.until = self.now + self.req[1]
+            elif self.ph == 'Writing' and fires_at(self.wdl) <= self.now:
+                self._finish('Io')
+            elif self.ph in ('InFlight', 'Waiting') and fires_at(self.until) <= self.now:
+                if self.ph == 'InFlight':
                     self._finish('Timeout')
                 else:
                     self._loop_top()
@@ -569,6 +607,11 @@ class Sim:
             self.wfail = True
         elif t == 'V':
             self.wdelay = s[1]
+        elif t == 'WP':
+            self.wpark += 1
+        elif t == 'WR':
+            if self.wpark:
+                self.wpark -= 1
         elif t in ('S', 'E', 'D', 'L', 'X'):
             if self.ph != 'Done' and self.handles > 0:
                 if not self.blocked and len(self.q) < self.cfg['cap']:
@@ -643,6 +686,7 @@ def judge(ctx, prop, cases, impl, model, clause_prefixes=None):
     reported = set()
     for c, i, m in zip(cases, impl, model):
         fails = spec_failures(c, i)
+        fails = [f for f in fails if f.startswith(prop + '.')] + [f for f in fails if not f.startswith(prop + '.')]    # the property's own clauses first
         if i == m and not fails:
             continue
         if fails:
@@ -654,14 +698,16 @@ def judge(ctx, prop, cases, impl, model, clause_prefixes=None):
             continue
         reported.add(kind)
 
-        def still(xs, want=bool(fails)):
+        def still(xs, want=(fails[0] if fails else None)):
             ii, mm = run_both(ctx, xs, shards=1)
-            return [(bool(spec_failures(x, a)) if want else (a != b)) for x, a, b in zip(xs, ii, mm)]
+            return [((want in spec_failures(x, a)) if want else (a != b)) for x, a, b in zip(xs, ii, mm)]      # the SAME clause still fails
         small = vlib.shrink_batch(c, still, shrink_candidates)
         si, sm = run_both(ctx, [small], shards=1)
         if not MODEL_OK:
             sm = ['(model unavailable: a Gen table could not be regenerated from the source)']
         sf = spec_failures(small, si[0])
+        if fails and fails[0] in sf:
+            sf = [fails[0]] + [x for x in sf if x != fails[0]]
         key = (sf[0] if sf else 'model-differs-from-impl')
         what = (f'script {to_line(small)}: ' + (f'the implementation log violates {", ".join(sf)}' if sf else
                 'the implementation log differs from the proved model (no clause of the property is violated by this log)')
@@ -737,13 +783,19 @@ def _tick_choices(sim, r):
         for v in (left - 1, left, left + 1, due - 1, due, due + 1, left - MS, left // 2):
             if v > 0:
                 out += [v, v]
+    if sim.ph == 'Writing':
+        left = sim.wdl - sim.now
+        due = fires_at(sim.wdl) - sim.now
+        for v in (left - 1, left, left + 1, due - 1, due, due + 1, left // 2):
+            if v > 0:
+                out += [v, v]
     return out
 
 
 def gen_random(r, cfg, nsteps, weights=None, alphabet=None, prefix=()):
     """random script steered by the replica: frames mostly hit the outstanding tx id, ticks mostly land around deadlines"""
     w = {'S': 5, 'T': 4, 'E': 2, 'D': 1.2, 'L': 0.4, 'H': 0.3, 'A': 0.15, 'X': 0.35, 'W': 0.4, 'V': 0.3,
-         'CO': 5, 'CE': 2, 'F': 4, 'P': 1, 'Q': 4, 'G': 0.4, 'Z': 0.5, 'R': 0.4}
+         'CO': 5, 'CE': 2, 'F': 4, 'P': 1, 'Q': 4, 'G': 0.4, 'Z': 0.5, 'R': 0.4, 'WP': 0.35, 'WA': 0.15, 'WR': 0.2}
     if weights:
         w.update(weights)
     sim = Sim(cfg)
@@ -752,7 +804,11 @@ def gen_random(r, cfg, nsteps, weights=None, alphabet=None, prefix=()):
         sim.apply(st)
     next_id = 1 + max([st[1] for st in script if st[0] == 'S'], default=-1)
     for _ in range(nsteps):
-        opts = ['S', 'T', 'E', 'D', 'L', 'H', 'A', 'X', 'W', 'V']
+        opts = ['S', 'T', 'E', 'D', 'L', 'H', 'A', 'X', 'W', 'V', 'WA']
+        if sim.wpark < 2:
+            opts.append('WP')
+        if sim.wpark:
+            opts += ['WR', 'WR', 'WR']
         if sim.ph == 'Connecting':
             opts += ['CO', 'CE']
         if sim.ph in ('Idle', 'InFlight'):
@@ -782,6 +838,8 @@ def gen_random(r, cfg, nsteps, weights=None, alphabet=None, prefix=()):
             s = (t, tx, r.choices('geb', weights=[5, 2, 2])[0])
         elif t == 'V':
             s = ('V', r.choice([MS, 2 * MS, 3 * MS + 1, 10 * MS]))
+        elif t == 'WA':
+            s = ('WA', r.choice([1, 2, 3, 5, 7, 11, 12, 100]))
         elif t == 'T':
             s = ('T', r.choice(_tick_choices(sim, r)))
         else:
@@ -789,6 +847,105 @@ def gen_random(r, cfg, nsteps, weights=None, alphabet=None, prefix=()):
         script.append(s)
         sim.apply(s)
     return script
+
+
+def gen_parked(r):
+    """the transmit side: a transport that takes nothing (a peer that does not read) at every position relative to submits,
+    deadlines and shutdown, released in time / too late / never.  Returns [(case, expectations)]; an expectation
+    {id: (class, instant | None)} is what the property statement requires, known by construction:
+    the transmission is bounded by the request's timeout counted from its start (Io, the connection is dropped);
+    a write that finishes in time is followed by the full timeout for the reply, counted from the END of the write."""
+    out = []
+    S = lambda i, t, st='f': ('S', i, 'r', t, st)
+    nt = lambda ticks, x: min(t for t in ticks if t >= x)
+    for tmo in (5 * MS, 1500000, 2 * MS - 1):
+        for t0 in (0, 500000):
+            for mt in (0, 1, 2):
+                cfg = {'cap': 4, 'handles': 1, 'mt': mt, 'rmin': 20 * MS, 'rmax': 40 * MS}
+                pre = connected_prefix(r.choice('fx')) + ([('T', t0)] if t0 else [])
+                bound = fires_at(t0 + tmo)                        # timer instant of the transmission bound
+                # 1. never released; commands queued behind the parked request are handled when the bound is reached
+                for behind in ([], [S(1, 10 * MS)], [('D', 'f')], [('X',)], [S(1, 10 * MS, 'c'), ('X',)], [('L', 'max', 'f'), S(1, 10 * MS, 'x')],
+                               [('D', 'x'), ('E', 'f')], [('H',)]):
+                    for early in (1, MS, None):
+                        sc = pre + [('WP',), S(0, tmo, r.choice('fcx'))] + behind
+                        if early is not None and bound - t0 - early > 0:
+                            sc.append(('T', bound - t0 - early))
+                            sc.append(('T', early))
+                        else:
+                            sc.append(('T', bound - t0))
+                        sc += [('T', 60 * MS), ('T', 60 * MS), ('T', 1)]
+                        exp = {0: ('Io', bound)}
+                        if behind and behind[0][0] == 'S':
+                            exp[1] = ('NoConnection', bound)
+                        if behind and behind[-1][0] == 'S' and len(behind) == 2:
+                            exp[1] = ('NoConnection', bound)
+                        out.append(((cfg, sc), exp))
+                # 2. released in time: written at the release; the reply has the whole timeout from there
+                for rel in (1, (bound - t0) // 2, bound - t0 - 1):
+                    if rel <= 0:
+                        continue
+                    w = t0 + rel
+                    due = fires_at(w + tmo)
+                    for reply in ('in-time', 'last-instant', 'none'):
+                        sc = pre + [('WP',), S(0, tmo), ('T', rel), ('WR',)]
+                        if reply == 'in-time':
+                            sc += [('F', 0, 'g')]
+                            exp = {0: ('Ok', w)}
+                        elif reply == 'last-instant':
+                            sc += [('T', due - w - 1), ('F', 0, 'e')]
+                            exp = {0: ('Exception', due - 1)}
+                        else:
+                            sc += [('T', due - w - 1), ('T', 1)]
+                            exp = {0: ('Timeout', due)}
+                        # the connection (if still there) and the transport are usable
+                        sc += [S(1, 10 * MS), ('F', 1, 'g'), ('T', 60 * MS), ('T', 60 * MS), ('T', 1)]
+                        if not (reply == 'none' and mt == 1):
+                            exp[1] = ('Ok', None)
+                        out.append(((cfg, sc), exp))
+                # 3. released too late; after the reconnect the next request goes through
+                sc = pre + [('WP',), S(0, tmo), ('T', bound - t0), ('WR',), ('T', 20 * MS), ('CO',), S(1, 10 * MS), ('F', 1, 'g'), ('T', 60 * MS), ('T', 60 * MS), ('T', 1)]
+                out.append(((cfg, sc), {0: ('Io', bound), 1: ('Ok', None)}))
+                # 4. never released: the park outlives the connection, the next connection's request is parked as well
+                sc = pre + [('WP',), S(0, tmo), ('T', bound - t0), ('T', 20 * MS), ('CO',), S(1, 3 * MS), ('T', 3 * MS), ('WR',), ('T', 20 * MS), ('CO',),
+                            S(2, 10 * MS), ('F', 2, 'g'), ('T', 60 * MS), ('T', 60 * MS), ('T', 1)]
+                out.append(((cfg, sc), {0: ('Io', bound), 1: ('Io', None), 2: ('Ok', None)}))
+                # 5. parked twice; a slow transport that is also parked; a transport that takes the frame in pieces
+                out.append(((cfg, pre + [('WP',), ('WP',), S(0, tmo), ('T', 1), ('WR',), ('T', 1), ('WR',), ('F', 0, 'g')]), {0: ('Ok', t0 + 2)}))
+                out.append(((cfg, pre + [('WP',), ('V', 1000), S(0, tmo), ('T', 1), ('WR',), ('T', bound - t0 - 1), ('T', 60 * MS), ('T', 60 * MS), ('T', 1)]), {}))
+                out.append(((cfg, pre + [('V', 1000), ('WP',), S(0, tmo), ('T', bound - t0 - 1), ('WR',), ('T', 1), ('T', 60 * MS), ('T', 60 * MS), ('T', 1)]), {}))
+                out.append(((cfg, pre + [('WA', 3), ('WP',), ('WA', 100), S(0, tmo), ('T', 1), ('WR',), ('F', 0, 'g'), ('WA', 1), ('WA', 1), S(1, tmo), ('F', 1, 'b')]),
+                            {0: ('Ok', t0 + 1), 1: ('BadResponse', t0 + 1)}))
+                # 6. parked while another request is in flight: that one is not affected, the next one is
+                out.append(((cfg, pre + [S(0, 10 * MS), ('WP',), S(1, tmo), ('F', 0, 'g'), ('T', bound - t0), ('T', 60 * MS), ('T', 60 * MS), ('T', 1)]),
+                            {0: ('Ok', t0), 1: ('Io', bound)}))
+                # 7. abort / every handle dropped while the write is parked
+                out.append(((cfg, pre + [('WP',), S(0, tmo), S(1, tmo, 'c'), ('A',), ('T', 60 * MS), ('T', 60 * MS), ('T', 1)]), {}))
+                out.append(((cfg, pre + [('WP',), S(0, tmo), ('H',), ('T', bound - t0), ('T', 60 * MS), ('T', 60 * MS), ('T', 1)]), {0: ('Io', bound)}))
+    # 8. the limit: a transmission that timed out is not a response timeout (mt = 2: timeout, parked -> Io, reconnect,
+    #    timeout, timeout -> MaxTimeouts only now)
+    cfg = {'cap': 4, 'handles': 1, 'mt': 2, 'rmin': 20 * MS, 'rmax': 40 * MS}
+    sc = connected_prefix() + [S(0, 5 * MS), ('T', 5 * MS), ('WP',), S(1, 5 * MS), ('T', 5 * MS), ('WR',), ('T', 20 * MS), ('CO',),
+                               S(2, 5 * MS), ('T', 5 * MS), S(3, 5 * MS), ('T', 5 * MS), ('T', 60 * MS), ('T', 60 * MS), ('T', 1)]
+    out.append(((cfg, sc), {0: ('Timeout', 5 * MS), 1: ('Io', 10 * MS), 2: ('Timeout', 35 * MS), 3: ('Timeout', 40 * MS)}))
+    return out
+
+
+def check_expectations(ctx, name, items, impl):
+    """items = [(case, {id: (class, instant|None)})]: what the property statement says must happen, known by construction"""
+    nbad = 0
+    for (c, exp), i in zip(items, impl):
+        p = parse(i)
+        got = {x[0]: (x[1], x[2]) for x in p['comp']} if p else {}
+        for rid, (wc, wt) in exp.items():
+            g = got.get(rid)
+            if g is None or g[0] != wc or (wt is not None and g[1] != wt):
+                nbad += 1
+                if nbad == 1:
+                    ctx.violation(name, f'script {to_line(c)}: request {rid} must complete with {wc}' + (f' at t={wt}' if wt is not None else '')
+                                  + f', the implementation reports {g}; impl={i}',
+                                  {'cases': [case_json(c)], 'impl': i, 'expected': {str(k): list(v) for k, v in exp.items()}})
+    return nbad
 
 
 def connected_prefix(style='f'):
